@@ -67,6 +67,7 @@ def gen_cases(tier, seed):
         yield {"kind": "file", "size": segs[-1][0] + segs[-1][1] + r.choice([0, 77]), "segs": segs, "sync": r.random() < 0.5, "fs": r.choice(["ext4", "tmpfs"]),
                "seed": r.randrange(1, 1 << 30), "first0": False, "lastbyte": False, "dense": False, "huge": True}
     yield {"kind": "merge-exhaustive", "U": 14 if tier == "quick" else 18}
+    yield {"kind": "merge-exhaustive-flags", "U": 9 if tier == "quick" else 11}   # every assignment of the `shared` flag as well
     for k in range(4 if tier == "quick" else 32):
         yield {"kind": "merge-random", "seed": r.randrange(1, 1 << 30), "n": 20000 if tier == "quick" else 200000}
     yield {"kind": "memcheck", "seed": r.randrange(1, 1 << 30)}
@@ -165,8 +166,8 @@ def run_case(case):
     k = case["kind"]
     if k == "file":
         run_file(case, res)
-    elif k in ("merge-exhaustive", "merge-random"):
-        argv = [PROBE_BIN["probe_fs"], k] + ([str(case["U"])] if k == "merge-exhaustive" else [str(case["seed"]), str(case["n"])])
+    elif k in ("merge-exhaustive", "merge-random", "merge-exhaustive-flags"):
+        argv = [PROBE_BIN["probe_fs"], k] + ([str(case["U"])] if k != "merge-random" else [str(case["seed"]), str(case["n"])])
         r = subprocess.run(argv, capture_output=True, timeout=3000)
         out = r.stdout.decode()
         try:
@@ -177,7 +178,11 @@ def run_case(case):
             return res
         if j["violations"]:
             res["viol"].append({"sig": "merge_extents:%s" % k, "what": "merge_extents broke its contract on %d list(s): %s" % (j["violations"], out[out.index('"examples"'):][:600])})
-        if k == "merge-exhaustive":
+        if k == "merge-exhaustive-flags":
+            res["counters"]["merge-exhaustive-with-shared-flags-universe"] = j["universe"]
+            res["counters"]["merge-exhaustive-with-shared-flags-lists"] = j["lists"]
+            res["evals"].append({"key": ["merge-exhaustive-flags", j["universe"]]})
+        elif k == "merge-exhaustive":
             res["counters"]["merge-exhaustive-universe"] = j["universe"]
             res["counters"]["merge-exhaustive-lists"] = j["lists"]
             res["counters"]["merge-exhaustive-lists-with-merges"] = j["lists_with_merges"]
